@@ -226,7 +226,7 @@ fn run(ctx: &Ctx, rep: &Report) {
         }
     }
     // 2. built corpus (built in this process, judged in the workers)
-    let n: u64 = ctx.tier.pick(300, 6000);
+    let n: u64 = ctx.tier.pick(300, 12_000);
     let base = ctx.work_dir("build");
     let built: std::sync::Mutex<Vec<(Vec<u8>, serde_json::Value)>> = std::sync::Mutex::new(Vec::new());
     par_for(ctx.threads, n, 1, |i| {
@@ -278,7 +278,7 @@ fn run(ctx: &Ctx, rep: &Report) {
         b.push("built", bytes, info);
     }
     // 3. hand-encoded well-formed packages
-    let nh: u64 = ctx.tier.pick(4000, 400_000);
+    let nh: u64 = ctx.tier.pick(4000, 2_000_000);
     let mut rng = Rng::for_case(ctx.seed, "C01-hdr", 0);
     for k in 0..nh {
         let bytes = rand_package(&mut rng);
